@@ -250,6 +250,8 @@ func unmanageGoroutines() (parked, busy int) {
 
 // settle waits until every delayed un-management goroutine is either asleep on
 // the mock clock or gone (wall-clock budget: a loaded machine schedules late).
+// -1 = they did not (an implementation whose un-management blocks): the stub is
+// read as it is and the history is reported, the harness does not stop.
 func settle() int {
 	for limit := time.Now().Add(60 * time.Second); time.Now().Before(limit); {
 		parked, busy := unmanageGoroutines()
@@ -258,7 +260,7 @@ func settle() int {
 		}
 		time.Sleep(50 * time.Microsecond)
 	}
-	panic("c14 reload: delayed un-management goroutines did not settle")
+	return -1 // reported by execReload (monitor hit), the harness goes on
 }
 
 func policiesConfig(cf *RCfg) *sharedConfig.PoliciesConfig {
@@ -394,7 +396,11 @@ func execReload(k *ReloadCase) []reloadHit {
 		case "advance":
 			clk.AdvanceTime(time.Duration(st.AdvanceNs))
 		}
-		settle()
+		if settle() < 0 {
+			hits = append(hits, reloadHit{step: i, sig: "reload:unmanagement-stuck",
+				demanded: "a delayed un-management either sleeps on the clock or finishes its calls to the proxy",
+				obs:      fmt.Sprintf("after step %d an un-management goroutine was still busy after 60 s; the proxy's state is read as it is", i)})
+		}
 		stub.mu.Lock()
 		st.All, st.Managed = stub.all, keysOf(stub.managed)
 		st.Body, st.Capture = keysOf(stub.body), keysOf(stub.capture)
